@@ -24,6 +24,30 @@ PROPS = {
         not_decided='name-syntax half of C18: name, ncname, qname, nmtoken, pi_target, enc_name, take_except are nom combinator compositions, outside both verifiers',
         explanation='classification half of C18: every is_* predicate of nom/src/xmlchar.rs equals the production range table for every char; Verus (SMT, all chars) and Kani (loop-free, kani::any::<char>(), complete) as two independent back ends',
     ),
+    'C02': dict(
+        verus_units=['info_helpers'],
+        level='proof',
+        trusted_base=TRUSTED_VERUS,
+        assumptions=[A1, A2 + ' (str::parse::<u32> / u32::from_str_radix behind an uninterpreted spec_parse; format! of the error payload unconstrained; char::from_u32 by assume_specification)', A6, A8],
+        not_decided='every grammar-level rejection listed by C02 (tags, attributes, comments, ]]>, undeclared entities, prolog order, PI targets): nom productions and Context::entity over the live document',
+        explanation='character-reference half of C02: info::char_from_char10/16 return Ok(c) only when the parsed number is c and c matches production [2] Char (WFC Legal Character), reject unparsable digits, accept every legal one; verified modularly against the contract of xmlchar::is_char, which is re-verified in the same unit',
+    ),
+    'C04': dict(
+        verus_units=['info_helpers'],
+        level='proof',
+        trusted_base=TRUSTED_VERUS,
+        assumptions=[A1, A2 + ' (str::contains("\\""), format! with one quote on each side)', A8],
+        not_decided='every Display impl over the live graph and the re-parse; values containing both quote characters (escape has no answer for them; callers re-parse and fail in set_values)',
+        explanation='quote selection of the printer: info::escape(v) returns q + v + q with q a quote character that does not occur in v, for every v that does not contain both quote characters, so the literal re-reads as v under productions [10]-[12]',
+    ),
+    'C11': dict(
+        verus_units=['info_helpers'],
+        level='proof',
+        trusted_base=TRUSTED_VERUS,
+        assumptions=[A1, A2 + ' (String::replace(char, " ") as a pointwise map; str::to_string; char::from_u32_unchecked by assume_specification carrying its safety precondition)', A8],
+        not_decided='recursion through entity references, type-dependent collapsing, defaulting and `specified` (XmlAttribute::normalized_value, attr_value_from_name, XmlElement::attributes): live document and nom',
+        explanation='white-space step of attribute-value normalization: info::normalize_ws keeps the length and maps exactly #x20 #x9 #xA #xD to a space and every other character to itself, for every string; the four from_u32_unchecked arguments are proved to be scalar values',
+    ),
 }
 
 NOT_APPLICABLE = {
@@ -44,4 +68,19 @@ MANIFEST_TEXT = {
         level_note='Trusted: Verus+Z3, Kani+CBMC, the extractor (verbatim ratio reported), the hand transcription of the W3C tables (spec/xml_chars.json), three assumed std contracts (char::is_ascii_*) on the Verus side. Not decided: the name productions (nom).',
         technique='contract-based deductive verification (Verus postconditions on extracted real functions; complete loop-free Kani harnesses)',
         design_ref='DESIGN.md §4 C18'),
+    'C02': dict(
+        level_text='Proof (Verus, all strings, std digit parsing uninterpreted) that info::char_from_char10/16 return a character only if it is the one denoted by the digits and matches production [2] Char, reject unparsable digits and accept every legal code. Character-reference clause of C02 only.',
+        level_note='Trusted: Verus+Z3, extractor, assumed std contracts (parse behind spec_parse, char::from_u32), W3C table transcription. Not decided: all nom-level rejections.',
+        technique='contract-based deductive verification (Verus postconditions on extracted real functions, callee is_char under its own contract)',
+        design_ref='DESIGN.md §4 C02'),
+    'C04': dict(
+        level_text='Proof (Verus, all strings without both quote characters) that info::escape returns the value between two copies of a quote character that does not occur in it. Quote-selection clause of C04 only.',
+        level_note='Trusted: Verus+Z3, extractor, two std shims (contains, format!). Not decided: Display impls, re-parse, fixpoint.',
+        technique='contract-based deductive verification (Verus postcondition on the extracted real function)',
+        design_ref='DESIGN.md §4 C04'),
+    'C11': dict(
+        level_text='Proof (Verus, all strings) that info::normalize_ws is the pointwise map sending exactly tab, CR, LF and space to a space, length preserved, unsafe from_u32_unchecked arguments valid. White-space step of C11 only.',
+        level_note='Trusted: Verus+Z3, extractor, String::replace shim. Not decided: entity recursion, typed collapsing, defaulting.',
+        technique='contract-based deductive verification (Verus postconditions on the extracted real function)',
+        design_ref='DESIGN.md §4 C11'),
 }
